@@ -509,7 +509,7 @@ def render_float(namespace: str, defs: list[Definition], header: str) -> str:
     if has_c:
         out.append("import Ampverif.Model.CFloat")
         out.append("open Ampverif")
-    out += [f"namespace {namespace}", FLOAT_PRELUDE]
+    out += ["set_option linter.all false", f"namespace {namespace}", FLOAT_PRELUDE]
     for d in defs:
         if d.ty == "real":
             ps = " ".join(d.params)
